@@ -65,9 +65,17 @@ def generic(mod, pid, args, seed, t0):
   repo = os.path.abspath(args.repo)
   if args.replay:
     payload = json.load(open(args.replay))
-    res = native_call(pid, repo, 'replay', payload)
-    print(json.dumps(res, indent=1))
-    return 1 if res and res.get('violations') else 0
+    print('replaying %s (%s) against %s' % (args.replay, payload.get('kind'), repo))
+    if payload.get('kind') == 'failed-obligation':
+      print('obligation %s [%s]: %s' % (payload['obligation'], payload['status'], payload['detail']))
+      print('solver output: %s' % str(payload.get('solver_output'))[:2000])
+    res = native_call(pid, repo, 'sweep', dict(tier='quick', seed=seed, witness=payload.get('witness')))
+    vs = (res or {}).get('violations', [])
+    for w in vs[:5]:
+      print('REPRODUCED: %s' % json.dumps(w)[:800])
+    if not vs:
+      print('native sweep finds no failing input on this tree')
+    return 1 if vs else 0
   T = mod.build()
   tmo = args.timeout or (120 if args.tier == 'thorough' else 30)
   per_fn, canaries, wall, ex = run.verify_theory(T, repo, timeout_s=tmo)
